@@ -63,6 +63,7 @@ var c05PostMutations = []Defect{
 	{Name: "as-redirect"}, {Name: "add-signature-param", Param: "QUJD"}, {Name: "add-signature-param", Param: "!!"}, {Name: "add-sigalg-param"},
 	{Name: "dup-signature-element"}, {Name: "add-child-after-signing"}, {Name: "remove-keyinfo"}, {Name: "change-relaystate"},
 	{Name: "deflate-polyglot"}, {Name: "deflate-polyglot"}, {Name: "repeat-in-query"},
+	{Name: "relabel-charset", Param: "ISO-8859-1"}, {Name: "relabel-charset", Param: "windows-1252"}, {Name: "relabel-charset", Param: "UTF-16"},
 }
 
 var c05RedirectMutations = []Defect{
@@ -144,6 +145,14 @@ func genC05Case(t *rapid.T) C05Case {
 			}
 		}, false)
 	}
+	if rapid.IntRange(0, 3).Draw(t, "stranger-before") == 0 {
+		// a moment ago somebody the storage has never heard of sent an unsigned request with every optional part filled in
+		// (refused): nothing of it belongs to the request that follows
+		if c.Hist == nil {
+			c.Hist = &History{SP: c.SP}
+		}
+		c.Hist.Warmups = append([]string{"sso-unknown"}, c.Hist.Warmups...)
+	}
 	c.OrigFirst = rapid.IntRange(0, 3).Draw(t, "origfirst") == 0
 	n := rapid.SampledFrom([]int{0, 1, 1, 1, 2}).Draw(t, "nmut")
 	cat := c05PostMutations
@@ -155,7 +164,7 @@ func genC05Case(t *rapid.T) C05Case {
 		var sub []Defect
 		for _, m := range cat {
 			switch m.Name {
-			case "sigalg-subst", "flip-signature", "junk-signature", "change-relaystate", "drop-relaystate", "add-relaystate", "edit-message", "edit-attr", "rogue-key", "rogue-key-registered-cert", "rogue-key-no-keyinfo", "flip-sigvalue", "flip-digest", "digestalg-subst", "reencode-message", "add-child-after-signing", "edit-issuer-other-sp", "deflate-polyglot":
+			case "sigalg-subst", "flip-signature", "junk-signature", "change-relaystate", "drop-relaystate", "add-relaystate", "edit-message", "edit-attr", "rogue-key", "rogue-key-registered-cert", "rogue-key-no-keyinfo", "flip-sigvalue", "flip-digest", "digestalg-subst", "reencode-message", "add-child-after-signing", "edit-issuer-other-sp", "deflate-polyglot", "relabel-charset":
 				sub = append(sub, m)
 			}
 		}
@@ -439,6 +448,15 @@ func c05Render(c C05Case, now time.Time) c05Rendered {
 			if s, ok := spsim.DeflatePolyglot(xt.Write(tree, ws), xt.Write(forged, ws)); ok {
 				xmlb = s
 				tr.Encoding = spsim.EncodingDeflate
+			}
+		}
+		for _, m := range c.Mut {
+			if m.Name == "relabel-charset" {
+				// the signed bytes behind an XML declaration that names another encoding: the declaration is outside the signed
+				// element, so whoever honours it reads other characters than the signer wrote
+				ws := c.Style.W
+				ws.Decl = ""
+				xmlb = append([]byte("<?xml version=\"1.0\" encoding=\""+m.Param+"\"?>\n"), xt.Write(tree, ws)...)
 			}
 		}
 		if c.has("change-relaystate") {
